@@ -46,4 +46,4 @@ cd /; cleanup
 [ $ok = 1 ] || { echo "NOT KEPT (not confirmed behaviour-preserving)"; exit 1; }
 mkdir -p /verif/mutants/$ID; cp $D/patch.diff /verif/mutants/$ID/benign_$TAG.diff; cp $D/meta.json /verif/mutants/$ID/benign_$TAG.meta.json; cp $D/$TF /verif/mutants/$ID/benign_${TAG}_$TF.txt
 echo "KEPT mutants/$ID/benign_$TAG.diff"
-/verif/scripts/mutant.sh /verif/mutants/$ID/benign_$TAG.diff $ID 2>&1 | grep -v "^  rule" | cut -c1-500 | head -8
+JV_BIN=${JV_BIN:-/verif/bin/jamverif} /verif/scripts/mutant.sh /verif/mutants/$ID/benign_$TAG.diff $ID 2>&1 | grep -v "^  rule" | cut -c1-500 | head -8
